@@ -194,7 +194,7 @@ PROPS = "INVARIANT TypeOK\nPROPERTY NoOther HistIsDocumented TransportsAgree Del
 MAXHIST = 7
 
 
-def bfs(ctx, name, t, ids, pats, fvals, setvals, excells, timeout=900):
+def bfs(ctx, name, t, ids, pats, fvals, setvals, excells, timeout=900, quiet=False):
     mc = mc_module(name, "FenceGen", t, ids, pats, fvals, setvals, excells)
     cfg = "SPECIFICATION Spec\n" + consts(t, MAXHIST) + "VIEW View\n" + PROPS + " Emit\n"
     # one worker: strict breadth-first order, so the output is deterministic and every configuration is reached by a
@@ -206,8 +206,9 @@ def bfs(ctx, name, t, ids, pats, fvals, setvals, excells, timeout=900):
     beh = os.path.join(r["dir"], "behaviours.ndjson")
     k = ctx.extract_tr(r["out"], beh)
     os.remove(r["out"])
-    ctx.log("TLC %s: %d fences x %d cells: %d distinct configurations, %d transitions emitted as behaviours (depth %d, %.0fs)"
-            % (name, len(t["scene"]["fences"]), len(t["cells"]), r["distinct"], k, r["depth"], r["wall_s"]))
+    if not quiet:
+        ctx.log("TLC %s: %d fences x %d cells: %d distinct configurations, %d transitions emitted as behaviours (depth %d, %.0fs)"
+                % (name, len(t["scene"]["fences"]), len(t["cells"]), r["distinct"], k, r["depth"], r["wall_s"]))
     if r["depth"] > MAXHIST or k != r["generated"] - 1 or k == 0:
         raise common.Infra("TLC %s: incomplete transition cover (depth %d, bound %d; %d behaviours for %d generated states)"
                            % (name, r["depth"], MAXHIST, k, r["generated"]))
@@ -216,7 +217,7 @@ def bfs(ctx, name, t, ids, pats, fvals, setvals, excells, timeout=900):
 
 def sim(ctx, name, t, ids, pats, fvals, setvals, excells, num, depth, timeout=900):
     mc = mc_module(name, "FenceSim", t, ids, pats, fvals, setvals, excells)
-    cfg = "SPECIFICATION SimSpec\n" + consts(t, depth) + PROPS + "\n"
+    cfg = "SPECIFICATION SimSpec\n" + consts(t, depth) + "INVARIANT TypeOK\nPROPERTY NoOther TransportsAgree DelReachesDefault\n"
     r = ctx.tlc(name, MODS[:1] + MODS[2:], mc, cfg, workers=1, simulate=num, depth=depth + 5, timeout=timeout)
     if not r["ok"]:
         raise common.Infra("FenceSim violates %s: see %s" % (r["violated"], r["out"]))
@@ -239,7 +240,7 @@ def design_variants(ctx, t, ids, pats, fvals, setvals, excells):
         cfg = ("SPECIFICATION Spec\n" + consts(t, MAXHIST, variant=v) + "VIEW View\nPROPERTY NoOther TransportsAgree\n")
         return v, ctx.tlc("variant_" + v, MODS[:2], mc, cfg, timeout=600, expect_violation=True, workers=1)
 
-    with ThreadPoolExecutor(max_workers=3) as ex:
+    with ThreadPoolExecutor(max_workers=6) as ex:
         for v, r in ex.map(one, list(VARIANTS)):
             if r["violated"] != VARIANTS[v]:
                 raise common.Infra("broken design %s: TLC reports %s instead of a violation of %s (the scene cannot tell the "
@@ -252,24 +253,31 @@ def design_variants(ctx, t, ids, pats, fvals, setvals, excells):
 # ---------------------------------------------------------------- replay
 TOTAL_KEYS = ("behaviours", "steps", "compared", "agreed", "empty_agreed", "items_agreed", "may_items_present",
               "may_items_absent", "messages", "sentinel_messages", "re_registrations", "other_hooks_registered",
-              "other_hooks_deleted", "expiry_steps")
+              "other_hooks_deleted", "expiry_steps", "hooks_replaced_under_the_same_name")
 DICT_KEYS = ("steps_by_op", "items_agreed_by_kind", "per_transport", "mismatch_classes")
 
 
 def replay(ctx, beh, table_path, label, others=0, report=True, transports=TRANSPORTS, spin=False, par=PAR, rereg=0,
-           examples=3):
+           examples=3, quiet=False, only=0):
     args = ["fence-replay", "-in", beh, "-table", table_path, "-par", str(par), "-transports", transports,
-            "-others", str(others), "-rereg", str(rereg), "-examples", str(examples),
+            "-others", str(others), "-rereg", str(rereg), "-examples", str(examples), "-only", str(only),
             "-dir", os.path.join(ctx.scratch, "srv_" + label)]
     if spin:
         args.append("-spinlock")
     t0 = time.time()
     rc, js, err = ctx.harness(args, timeout=3000)
     st = js["stats"]
-    ctx.log("replay %s (%d other hooks/server): %d behaviours, %d steps, %d (step,fence,transport) comparisons, %d notifications "
-            "equal to TLC's items, %d disagreeing comparisons %s (%.0fs)"
-            % (label, others, st["behaviours"], st["steps"], st["compared"], st["items_agreed"], js["mismatch_count"],
-               st["mismatch_classes"] or "", time.time() - t0))
+    if not quiet or js["mismatch_count"]:
+        ctx.log("replay %s (%d other hooks/server): %d behaviours, %d steps, %d (step,fence,transport) comparisons, %d notifications "
+                "equal to TLC's items, %d disagreeing comparisons %s (%.0fs)"
+                % (label, others, st["behaviours"], st["steps"], st["compared"], st["items_agreed"], js["mismatch_count"],
+                   st["mismatch_classes"] or "", time.time() - t0))
+    lag = max(js.get("max_scheduling_lag_ms", 0), js.get("slowest_webhook_ms", 0))
+    if report and js["mismatches"] and lag > 2500:
+        # tile38 gives a webhook request 5 s and sends the notification again after a failure: on a machine that
+        # starves the harness that long, a disagreement is not a verdict
+        raise common.Infra("machine too slow: the harness was stalled for %d ms during replay %s (webhook requests may have "
+                           "timed out and been re-sent); %d disagreeing comparisons not judged" % (lag, label, js["mismatch_count"]))
     if report and js["mismatches"]:
         lines = open(beh).read().split("\n")
         table = json.load(open(table_path))
@@ -279,7 +287,7 @@ def replay(ctx, beh, table_path, label, others=0, report=True, transports=TRANSP
             common.report(ctx, "c05-%s-%s-b%d-s%d-f%d-%s" % (label, m["class"], m["behaviour"], m["step"], m["fence"],
                                                              m["transport"]), text,
                           {"kind": "fence-behaviour", "behaviour": lines[m["behaviour"]], "table": table, "others": others,
-                           "transports": transports, "mismatch": m})
+                           "transports": transports, "only": only, "mismatch": m})
     return st, js
 
 
@@ -384,6 +392,7 @@ def run(ctx):
     dicts = {k: {} for k in DICT_KEYS}
     samples, scenes, by_others = [], {}, {}
     states = trans = 0
+    solo = [0, 0]
 
     def acc(st, js, others):
         for k in TOTAL_KEYS:
@@ -446,6 +455,22 @@ def run(ctx):
             fences_filters(full=False)
         cover("pairs", scene("pairs", F_SOUTH, ["A", "B", "D", "S"], [a_bounds("intersects")], fs), IDS2, [0], [-1], [2], [1])
 
+    # ---- scene 1c: a single fence on a server with no other hook at all, one registration at a time
+    #      (registries with exactly one entry: "however many other fences exist" includes none)
+    solo_dets = [["cross"], ["enter", "exit"], None, ["inside", "outside"]] if ctx.quick else all_detects()
+    sc = scene("solo", F_PHX, ["A", "B", "D", "H"], [a_bounds("intersects")], [fence(1, d) for d in solo_dets])
+    t, tp = table(sc)
+    r, beh, n = bfs(ctx, "solo", t, IDS1, PATS, [0], [-1], [2], quiet=True)
+    states += r["distinct"]
+    trans += n
+    for i in range(len(solo_dets)):
+        for tr in ("hook,live", "chan"):
+            st, js = replay(ctx, beh, tp, "solo%d_%s" % (i + 1, tr.replace(",", "")), transports=tr, par=2, quiet=True, only=i + 1)
+            acc(st, js, 0)
+            solo[0] += st["behaviours"]
+            solo[1] += st["compared"]
+    ctx.log("solo: %d behaviours replayed on servers with a single fence registered once, %d comparisons" % tuple(solo))
+
     # ---- scene 2: WHERE / NOFIELDS on a circle (NEARBY POINT), field values below / inside the WHERE range
     sc2 = scene("where", F_EQ, ["A", "N", "D"] if ctx.quick else ["A", "N", "D", "K"], [a_nearby()], fences_where())
     cover("where", sc2, ctx.pick(IDS1, IDS2), [0, 5, 20], [-1, 0, 5, 20], [2], ctx.pick([0], [0, 1, 50]), rereg=ctx.pick(0, 200),
@@ -491,7 +516,10 @@ def run(ctx):
             ctx.seed = seed0
         ctx.log("%d extra simulation rounds" % rnd)
 
-    # ---- self-test of the binding
+    # ---- self-test of the binding (it needs the real code to agree with the uncorrupted items: not after a violation)
+    if ctx.violations:
+        ctx.log("violations reported: self-test of the binding and vacuity checks skipped")
+        return
     nmut, mutkinds, mut_samples = selftest(ctx, beh1, tp1, ctx.pick(60, 300))
 
     # ---- vacuity
@@ -526,6 +554,7 @@ def run(ctx):
         "behaviours_by_population_of_other_hooks": by_others,
         "other_hooks_registered/deleted": [total["other_hooks_registered"], total["other_hooks_deleted"]],
         "re_registrations_of_the_fences_under_test": total["re_registrations"],
+        "registrations_that_replaced_a_decoy_of_the_same_name": total["hooks_replaced_under_the_same_name"],
         "disagreeing_comparisons_by_class": dicts["mismatch_classes"],
         "scenes": scenes,
         "design_level": "on every transition x every fence TLC checked Coded = Documented (NoOther), webhook/channel = live "
@@ -572,6 +601,7 @@ def run_replay(ctx):
     open(beh, "w").write(p["behaviour"] + "\n")
     tp = os.path.join(ctx.scratch, "replay_table.json")
     json.dump(p["table"], open(tp, "w"))
-    st, js = replay(ctx, beh, tp, "replay", others=p.get("others", 0), transports=p.get("transports", TRANSPORTS), par=1)
+    st, js = replay(ctx, beh, tp, "replay", others=p.get("others", 0), transports=p.get("transports", TRANSPORTS), par=1,
+                    only=p.get("only", 0))
     if st["compared"] == 0:
         raise common.Infra("replay compared nothing")
